@@ -18,6 +18,11 @@ def step (st : Option Seg) (ws : List String) : Option Seg × String :=
       | some (o, s') => (some s', s!"ok {o} {hdr s'}")
       | none => (some s, "fail " ++ hdr s)
     | none => (st, "bad-op")
+  | some s, ["allocw", _rows, est, tot] => match est.toInt?, tot.toInt? with
+    | some e, some t => match allocateAndWrite s e t with
+      | some (o, s') => (some s', s!"ok {o} {t} {hdr s'}")
+      | none => (some s, "fail " ++ hdr s)
+    | _, _ => (st, "bad-op")
   | some s, ["free", n] => match n.toNat? with
     | some k => match free s k with
       | some s' => (some s', "ok " ++ hdr s')
